@@ -346,7 +346,7 @@ def fault_catalogue():
     g("star", [rule("S", act(label("x", star(act(cls(ranges=[("a", "b")]), b_fault(0, "f0")))), b_rec("s")))], 1)
     g("pred", [rule("S", act(seq(andcode(p_fault(0, "pf0")), label("x", lit("a")), notcode(p_const(False, "pn")), opt(lit("b"))), b_rec("s")))], 1)
     g("display", [rule("S", act(seq(label("x", ref("Item")), opt(ref("Item"))), b_rec("s")), display="start"),
-                  rule("Item", act(cls(ranges=[("a", "b")]), b_fault(0, "f0")), display="item")], 1)
+                  rule("Item", act(cls(ranges=[("a", "b")]), b_fault(0, "f0")), display="100% item %d")], 1)
     g("nested", [rule("S", act(seq(label("x", ref("A")), label("y", ref("B"))), b_fault(0, "f0"))),
                  rule("A", act(lit("a"), b_fault(1, "f1"))),
                  rule("B", choice(act(lit("b"), b_fault(2, "f2")), act(lit("a"), b_rec("b2"))))], 3)
@@ -467,6 +467,10 @@ def lr_catalogue():
     g("state", [rule("S", act(seq(label("e", ref("E")), andcode(p_state("k", 0))), b_rec("s"))),
                 rule("E", choice(act(seq(label("l", ref("E")), lit("+"), state(s_inc("k")), label("r", ref("N"))), b_rec("add")), ref("N")), lr=True),
                 rule("N", num())])
+    # a base that can match the empty string: the first growth step starts from an empty seed
+    g("emptybase", [rule("S", act(seq(label("e", ref("P")), label("rest", opt(any_()))), b_rec("s"))),
+                    rule("P", choice(act(seq(label("l", ref("P")), lit("/"), label("r", ref("N"))), b_rec("seg")), opt(ref("N"))), lr=True),
+                    rule("N", num())])
     # suffix-only recursion (postfix operator)
     g("postfix", [rule("S", act(label("e", ref("E")), b_rec("s"))),
                   rule("E", choice(act(seq(label("l", ref("E")), lit("!")), b_rec("bang")), act(lit("0"), b_const("zero"))), lr=True)])
@@ -824,6 +828,8 @@ def random_lr(seed, count):
                 items.insert(1, not_(lit("0")))
             alts.append(act(seq(*items), b_rec("op%d" % k)))
         bases = [ref("N")]
+        if rnd.random() < 0.25:
+            bases = [opt(ref("N"))]  # a base that can match the empty string
         if rnd.random() < 0.5:
             bases.append(act(lit("x"), b_const("X")))
         if rnd.random() < 0.3:
@@ -887,4 +893,25 @@ def random_class_merges(seed, count):
             items.append(label("w", opt(choice(*again))))
         items.append(label("y", opt(any_())))
         out.append(grammar("mrg%d_%d" % (seed, n), [rule("S", act(seq(*items), b_rec("s")))] + rules, tags=["random"]))
+    return out
+
+
+def random_iliterals(seed, count):
+    """Seeded case-insensitive literals over letters whose case folding is unusual (it crosses the ASCII
+    border or changes the UTF-8 length), at the end of the input and followed by more (C01, C10, C15)."""
+    rnd = random.Random(seed * 2671 + 3)
+    special = ["K", "İ", "ı", "ſ", "Ⱥ", "ⱥ", "Ⱦ", "ß", "ẞ", "ǅ", "Σ", "ς", "µ", "é", "É", "k", "s", "i"]
+    ascii_ = "akst"
+    out = []
+    for n in range(count):
+        if n < len(special):
+            # every special letter once as the last thing in the input
+            w, tail = special[n], not_(any_())
+        else:
+            w = rnd.choice(special)
+            if rnd.random() < 0.5:
+                w = rnd.choice(ascii_) + w if rnd.random() < 0.5 else w + rnd.choice(ascii_)
+            tail = rnd.choice([not_(any_()), opt(any_()), lit("-")])
+        body = seq(label("x", lit(w, i=True)), label("y", tail)) if tail["k"] != "not" else seq(label("x", lit(w, i=True)), tail)
+        out.append(grammar("ilit%d_%d" % (seed, n), [rule("S", act(body, b_rec("s")))], tags=["random"]))
     return out
